@@ -1219,7 +1219,7 @@ pub fn well_behaved(rng: &mut Rng, opts: GenOpts) -> AST {
 // ---------------------------------------------------------------------------------------------
 // Fault injection (C10): insert one faulting statement at a statement position.
 
-pub const FAULT_CLASSES: [&str; 54] = [
+pub const FAULT_CLASSES: [&str; 58] = [
     "unknown-variable-read",
     "unknown-variable-write",
     "unknown-function",
@@ -1276,6 +1276,11 @@ pub const FAULT_CLASSES: [&str; 54] = [
     "zero-modulo-itself",
     "array-compared-with-itself",
     "object-compared-with-itself",
+    // argument counts in the other direction
+    "function-arity-excess",
+    "method-arity-deficit",
+    "print-no-arguments-one-placeholder",
+    "inherited-builtin-arity",
 ];
 
 pub fn fault_statement(class: &str, tag: usize) -> Vec<AST> {
@@ -1365,6 +1370,10 @@ pub fn fault_statement(class: &str, tag: usize) -> Vec<AST> {
         "zero-modulo-itself" => AST::block(vec![AST::variable(id("zz_zero"), AST::Integer(0)), op("%", var("zz_zero"), var("zz_zero"))]),
         "array-compared-with-itself" => AST::block(vec![AST::variable(id("zz_arr"), AST::array(AST::Integer(1), AST::Integer(0))), op("==", var("zz_arr"), var("zz_arr"))]),
         "object-compared-with-itself" => AST::block(vec![AST::variable(id("zz_obj"), obj()), op("!=", var("zz_obj"), var("zz_obj"))]),
+        "function-arity-excess" => AST::call_function(id("zz_two"), vec![AST::Integer(1), AST::Integer(2), AST::Integer(3)]),
+        "method-arity-deficit" => AST::call_method(obj(), id("fm"), vec![]),
+        "print-no-arguments-one-placeholder" => AST::print(format!("<p0 {} ~>\\n", tag), vec![]),
+        "inherited-builtin-arity" => AST::call_method(AST::object(AST::Integer(5), vec![]), id("+"), vec![]),
         "array-method-on-object-with-array-field" => {
             AST::access_array(AST::object(AST::Null, vec![AST::variable(id("items"), AST::array(AST::Integer(2), AST::Integer(0)))]), AST::Integer(0))
         }
@@ -1719,7 +1728,7 @@ let obj = object begin let x = 1; let y = 2; function m(a) -> this.x + a; functi
 pub const MATRIX_PROBE: &str = "print(\"|g=~ arr=~ obj=~\\n\", g, arr, obj);\n";
 
 /// (name, expression text with `Q` standing for a fresh variable name)
-pub const MATRIX_CONSTRUCTS: [(&str, &str); 31] = [
+pub const MATRIX_CONSTRUCTS: [(&str, &str); 42] = [
     ("int", "3"),
     ("bool", "true"),
     ("null", "null"),
@@ -1751,10 +1760,23 @@ pub const MATRIX_CONSTRUCTS: [(&str, &str); 31] = [
     ("arith", "1 + 2 * 3"),
     ("tracers", "t(1) + t(2)"),
     ("local-read", "begin let Q = 6; Q; Q end"),
+    // values in roles they rarely play (condition, size, index, parent, receiver)
+    ("zero", "0"),
+    ("negative", "-1"),
+    ("false", "false"),
+    ("empty-array", "array(0, 0)"),
+    ("empty-object", "(object begin end)"),
+    // undefined operations: whatever surrounds them, the output of what completed before stays and nothing after runs
+    ("fault-div", "(t(7) / (g - g))"),
+    ("fault-unknown-function", "nosuch_fn(t(8))"),
+    ("fault-print-mismatch", "(print(\"x~~;\", t(9)))"),
+    ("fault-unknown-method", "obj.nosuch(t(6))"),
+    ("fault-index", "arr[t(5)]"),
+    ("fault-arity", "f2(t(4))"),
 ];
 
 /// (name, statements with `H` as the hole)
-pub const MATRIX_CONTEXTS: [(&str, &str); 34] = [
+pub const MATRIX_CONTEXTS: [(&str, &str); 38] = [
     ("top-discard", "H;"),
     ("top-keep", "print(\"~\\n\", H);"),
     ("block-discard", "begin H; 1 end;"),
@@ -1789,6 +1811,11 @@ pub const MATRIX_CONTEXTS: [(&str, &str); 34] = [
     ("receiver", "print(\"~\\n\", (H).m(1));"),
     ("eq-left", "print(\"~\\n\", H == 1);"),
     ("eq-right", "print(\"~\\n\", 1 == H);"),
+    ("loop-condition-once", "let once = 0; while (if once == 0 then begin once <- 1; H end else false) do print(\"L\\n\");"),
+    ("and-right", "print(\"~\\n\", true & H);"),
+    ("method-of-literal", "print(\"~\\n\", (object begin function mm(a) -> a; end).mm(H));"),
+    // the very last statement of the program (no probe after it)
+    ("top-last", "print(\"|g=~ arr=~ obj=~\\n\", g, arr, obj); H"),
 ];
 
 pub fn matrix_program(ci: usize, xi: usize) -> (String, String) {
@@ -1796,7 +1823,7 @@ pub fn matrix_program(ci: usize, xi: usize) -> (String, String) {
     let (xn, x) = MATRIX_CONTEXTS[xi];
     let c = c.replace('Q', "qq");
     let body = x.replace('H', &c);
-    (format!("{}@{}", cn, xn), format!("{}{}\n{}", MATRIX_PRELUDE, body, MATRIX_PROBE))
+    (format!("{}@{}", cn, xn), format!("{}{}\n{}", MATRIX_PRELUDE, body, if xn.ends_with("-last") { "" } else { MATRIX_PROBE }))
 }
 
 /// expression wrappers with `H` as the hole: a second level of context between construct and statement
@@ -1827,7 +1854,7 @@ pub fn matrix3_program(ci: usize, wi: usize, xi: usize) -> (String, String) {
     let c = c.replace('Q', "qq");
     let inner = w.replace('H', &c);
     let body = x.replace('H', &inner);
-    (format!("{}@{}@{}", cn, wn, xn), format!("{}{}\n{}", MATRIX_PRELUDE, body, MATRIX_PROBE))
+    (format!("{}@{}@{}", cn, wn, xn), format!("{}{}\n{}", MATRIX_PRELUDE, body, if xn.ends_with("-last") { "" } else { MATRIX_PROBE }))
 }
 
 pub fn matrix_size() -> usize {
